@@ -18,7 +18,7 @@ LEAN = os.path.join(VERIF, "lean")
 HARNESS = os.path.join(VERIF, "harness")
 CACHE = os.path.join(VERIF, ".cache")
 WORK = os.path.join(VERIF, ".work")
-EVID = os.path.join(VERIF, "evidence")
+EVID = os.environ.get("VERIF_EVIDENCE_DIR", os.path.join(VERIF, "evidence"))
 DRIVER = os.path.join(LEAN, ".lake", "build", "bin", "bgdriver")
 NCPU = os.cpu_count() or 4
 
@@ -84,7 +84,7 @@ def build_lean():
     _lean_built = True
 
 
-def _prune_cache(prefix, keep=6):
+def _prune_cache(prefix, keep=14):
     if not os.path.isdir(CACHE):
         return
     items = [os.path.join(CACHE, f) for f in os.listdir(CACHE) if f.startswith(prefix)]
